@@ -15,6 +15,9 @@ CONSTANTS
   SMCells2 <- CellsS2
   SMWeights = {}
   MaxOps = 2
+  PLeaves = 2
+  PCells <- CellsS2
+  TipsNarrowed = FALSE
   Shipped = FALSE
 INVARIANT TreeOk
 INVARIANT PureScore
